@@ -615,6 +615,20 @@ fn run_scenario(sc: &J) -> J {
             }
             continue;
         }
+        if kind == "setprinter" {
+            // the host installs its printer again in the middle of a session (e.g. to redirect output)
+            let r = panic::catch_unwind(panic::AssertUnwindSafe(|| vm.set_printer(printer)));
+            let events = SIM.with(|s| std::mem::take(&mut s.borrow_mut().events));
+            match r {
+                Ok(_) => outs.push(json!({"events": events, "outcome": {"setprinter": true}})),
+                Err(p) => {
+                    outs.push(json!({"events": events, "outcome": {"panic": panic_msg(p)}}));
+                    std::mem::forget(vm);
+                    return finish(sc, outs);
+                }
+            }
+            continue;
+        }
         if kind == "compile" {
             // the host compiles a program now and keeps the function (a Root) to execute it later
             let src = p.get("source").and_then(|k| k.as_str()).unwrap_or("").to_string();
